@@ -51,7 +51,13 @@ def result_props(op, obs):
     if op["name"] == "reload":
         exc = obs.get("exc") if isinstance(obs, dict) else None
         # any other exception: a file written by save from a self-contained IR was not accepted
-        return set(RELOAD_PROPS.get(exc, {"C01", "C17"}))
+        props = set(RELOAD_PROPS.get(exc, {"C01", "C17"}))
+        m = obs.get("msg") if isinstance(obs, dict) else None
+        where = m.get("at", "") if isinstance(m, dict) else ""
+        if exc in ("ResaveDiffers", "ReaderDisagreesWithSchemaMapping") and where.rsplit(".", 1)[-1] in (
+                "payload", "value", "entry", "sym1", "sym2", "src", "tgt"):
+            props.add("C09")      # a reference of the saved IR did not come back as the object it named
+        return props
     if op["name"] == "writemsg":
         return {"C02"}
     if op["name"] == "readmsg":
